@@ -32,6 +32,10 @@ where
         if !b.um(i).sym.is_ascii() && (thorough() || pick.len() < 6) {
             pick.push(i);
         }
+        // units with an empty symbol (displayed like unit-less values) or with quotes / backslashes in it
+        if b.um(i).sym.is_empty() || b.um(i).sym.contains('"') || b.um(i).sym.contains('\\') {
+            pick.push(i);
+        }
     }
     pick.sort();
     pick.dedup();
